@@ -108,18 +108,18 @@ func c20Lit(c *core.Ctx, r *core.Reporter) {
 				nlit++
 				stores := lits[al]
 				for _, f := range core.Fields(named) {
-					key := fmt.Sprintf("%s/%s.%s", spec.fn, spec.typ, f.Name())
+					key := fmt.Sprintf("%s/%s.%s", spec.fn, spec.typ, core.N(f))
 					if nlit > 1 {
-						key = fmt.Sprintf("%s/%s#%d.%s", spec.fn, spec.typ, nlit, f.Name())
+						key = fmt.Sprintf("%s/%s#%d.%s", spec.fn, spec.typ, nlit, core.N(f))
 					}
-					allowed, tabled := spec.fields[f.Name()]
+					allowed, tabled := spec.fields[core.N(f)]
 					if spec.fields != nil && tabled && allowed == nil {
 						r.Exists(key, al.Pos(), "field deliberately left zero at construction")
 						continue
 					}
-					vals := stores[f.Name()]
+					vals := stores[core.N(f)]
 					if len(vals) == 0 {
-						r.Bad(key, al.Pos(), "%s literal in %s does not set field %s: the callback receives a zero value there", spec.typ, spec.fn, f.Name())
+						r.Bad(key, al.Pos(), "%s literal in %s does not set field %s: the callback receives a zero value there", spec.typ, spec.fn, core.N(f))
 						continue
 					}
 					if spec.fields == nil {
@@ -127,7 +127,7 @@ func c20Lit(c *core.Ctx, r *core.Reporter) {
 						continue
 					}
 					if !tabled {
-						r.Unknown(key, al.Pos(), "field %s of %s has no tabled provenance (new field: extend the table after reading the code)", f.Name(), spec.typ)
+						r.Unknown(key, al.Pos(), "field %s of %s has no tabled provenance (new field: extend the table after reading the code)", core.N(f), spec.typ)
 						continue
 					}
 					var all []string
@@ -143,7 +143,7 @@ func c20Lit(c *core.Ctx, r *core.Reporter) {
 					if okAll {
 						r.OK(key, al.Pos(), "provenance %v within the tabled class %v", all, allowed)
 					} else {
-						r.Bad(key, al.Pos(), "%s.%s built in %s has provenance %v, expected only %v: a per-plan value is fed from the call or a per-call value from the plan/another frame", spec.typ, f.Name(), spec.fn, all, allowed)
+						r.Bad(key, al.Pos(), "%s.%s built in %s has provenance %v, expected only %v: a per-plan value is fed from the call or a per-call value from the plan/another frame", spec.typ, core.N(f), spec.fn, all, allowed)
 					}
 				}
 			}
@@ -234,7 +234,7 @@ func c20Parent(c *core.Ctx, r *core.Reporter) {
 		var idxCall *ssa.Call
 		core.Instrs(fn, func(in ssa.Instruction) {
 			if call, ok := in.(*ssa.Call); ok {
-				if cal := call.Call.StaticCallee(); cal != nil && cal.Name() == "Index" && cal.Pkg != nil && cal.Pkg.Pkg.Path() == "reflect" {
+				if cal := call.Call.StaticCallee(); cal != nil && core.N(cal) == "Index" && cal.Pkg != nil && cal.Pkg.Pkg.Path() == "reflect" {
 					idxCall = call
 				}
 			}
@@ -358,7 +358,7 @@ func c20Alias(c *core.Ctx, r *core.Reporter) {
 		ok := false
 		core.Instrs(fn, func(in ssa.Instruction) {
 			if u, isU := in.(*ssa.UnOp); isU {
-				if f := core.FieldOf(u.X); f != nil && f.Name() == "static" {
+				if f := core.FieldOf(u.X); f != nil && core.N(f) == "static" {
 					ok = true
 				}
 			}
@@ -420,7 +420,7 @@ func c20Occurrence(c *core.Ctx, r *core.Reporter) {
 	rec := map[*ssa.BasicBlock]bool{}
 	core.Instrs(fn, func(in ssa.Instruction) {
 		if st, ok := in.(*ssa.Store); ok {
-			if f := core.FieldOf(st.Addr); f != nil && f.Name() == "fieldASTs" {
+			if f := core.FieldOf(st.Addr); f != nil && core.N(f) == "fieldASTs" {
 				rec[st.Block()] = true
 			}
 		}
@@ -473,7 +473,7 @@ func c01MergedSub(c *core.Ctx, r *core.Reporter) {
 				n++
 				name := fnKey(fn)
 				per[name]++
-				key := fmt.Sprintf("%s->%s#%d", name, callee.Name(), per[name])
+				key := fmt.Sprintf("%s->%s#%d", name, core.N(callee), per[name])
 				if idx := constIndexedOccurrence(a); idx != "" {
 					r.Bad(key, site.Pos(), "%s plans a sub-selection from %s, one occurrence picked by a constant index, instead of from all occurrences of the merged field: children selected only under the other occurrences of the same response key are dropped from the response", name, idx)
 				} else {
@@ -497,7 +497,7 @@ func constIndexedOccurrence(v ssa.Value) string {
 	if !ok {
 		return ""
 	}
-	if f := core.FieldOf(fa); f == nil || f.Name() != "SelectionSet" {
+	if f := core.FieldOf(fa); f == nil || core.N(f) != "SelectionSet" {
 		return ""
 	}
 	base, ok := fa.X.(*ssa.UnOp)
